@@ -19,10 +19,63 @@ def field (j : Json) (k : String) : E Json := j.getObjVal? k
 def strs (j : Json) : E (List String) := do (← arr j).mapM (·.getStr?)
 def nats (j : Json) : E (List Nat) := do (← arr j).mapM (·.getNat?)
 
-def parseParts (j : Json) : E (List (Name × List Nat)) := do
+/-- a subscript is a number, or an expression: ["num", n] | ["ref", parts] | ["bin", "+", a, b] -/
+def parseSub0 : Nat → Json → E Sub0
+  | 0, _ => .error "fuel"
+  | f + 1, j =>
+    match j.getNat? with
+    | .ok n => pure (.lit n)
+    | .error _ => do
+      match ← arr j with
+      | [k, a] =>
+        match ← k.getStr? with
+        | "num" => pure (.lit (← a.getNat?))
+        | "ref" =>
+          match ← arr a with
+          | [p] =>
+            match ← arr p with
+            | [n, ss] => if (← arr ss).isEmpty then pure (.name (← n.getStr?)) else .error "subscript-too-deep"
+            | _ => .error "bad-ref-part"
+          | _ => .error "subscript-too-deep"
+        | s => .error s!"bad-subscript {s}"
+      | [k, op, a, b] =>
+        if (← k.getStr?) == "bin" && (← op.getStr?) == "+" then
+          pure (.add (← parseSub0 f a) (← parseSub0 f b))
+        else .error "bad-subscript-operator"
+      | _ => .error "bad-subscript"
+
+def parseParts0 (j : Json) : E (List (Name × List Sub0)) := do
   (← arr j).mapM fun p => do
     match ← arr p with
-    | [n, ss] => pure (← n.getStr?, ← nats ss)
+    | [n, ss] => pure (← n.getStr?, ← (← arr ss).mapM (parseSub0 16))
+    | _ => .error "bad-ref-part"
+
+def parseSub1 : Nat → Json → E Sub1
+  | 0, _ => .error "fuel"
+  | f + 1, j =>
+    match j.getNat? with
+    | .ok n => pure (.lit n)
+    | .error _ => do
+      match ← arr j with
+      | [k, a] =>
+        match ← k.getStr? with
+        | "num" => pure (.lit (← a.getNat?))
+        | "ref" =>
+          let ps ← parseParts0 a
+          match ps with
+          | [(n, [])] => pure (.name n)
+          | _ => pure (.ref ps)
+        | s => .error s!"bad-subscript {s}"
+      | [k, op, a, b] =>
+        if (← k.getStr?) == "bin" && (← op.getStr?) == "+" then
+          pure (.add (← parseSub1 f a) (← parseSub1 f b))
+        else .error "bad-subscript-operator"
+      | _ => .error "bad-subscript"
+
+def parseParts (j : Json) : E (List (Name × List Sub1)) := do
+  (← arr j).mapM fun p => do
+    match ← arr p with
+    | [n, ss] => pure (← n.getStr?, ← (← arr ss).mapM (parseSub1 16))
     | _ => .error "bad-ref-part"
 
 def parseExpr : Nat → Json → E Expr
@@ -64,6 +117,21 @@ def parseComp (j : Json) : E SComp := do
          prefixes := ← strs (← field j "prefixes"), dims := ← nats (← field j "dims"),
          mods := ← parseSMods (← field j "mods"), value := ← parseOptExpr 64 (← field j "value") }
 
+def parsePair (e : Json) : E (Expr × Expr) := do
+  match ← arr e with
+  | [l, r] => pure (← parseExpr 64 l, ← parseExpr 64 r)
+  | _ => .error "bad-equation"
+
+/-- [lhs, rhs]  |  ["for", i, lo, hi, [[lhs, rhs], ...]] -/
+def parseEqn (e : Json) : E Eqn := do
+  match ← arr e with
+  | [l, r] => pure (.eq (← parseExpr 64 l) (← parseExpr 64 r))
+  | [k, i, lo, hi, body] =>
+    if (← k.getStr?) == "for" then
+      pure (.forEq (← i.getStr?) (← lo.getNat?) (← hi.getNat?) (← (← arr body).mapM parsePair))
+    else .error "bad-equation"
+  | _ => .error "bad-equation"
+
 def parseClass : Nat → Json → E SClass
   | 0, _ => .error "fuel"
   | f + 1, j => do
@@ -74,11 +142,11 @@ def parseClass : Nat → Json → E SClass
       pure ({ ref := dotted (← (← field e "ref").getStr?), mods := ← parseSMods (← field e "mods") } : SExt)
     let classes ← (← arr (← field j "classes")).mapM (parseClass f)
     let comps ← (← arr (← field j "comps")).mapM parseComp
-    let eqs ← (← arr (← field j "eqs")).mapM fun e => do
-      match ← arr e with
-      | [l, r] => pure (← parseExpr 64 l, ← parseExpr 64 r)
-      | _ => .error "bad-equation"
-    pure (.mk (← (← field j "name").getStr?) (← (← field j "kind").getStr?) alias exts classes comps eqs)
+    let eqs ← (← arr (← field j "eqs")).mapM parseEqn
+    let ieqs ← match j.getObjVal? "ieqs" with
+      | .ok x => (← arr x).mapM parseEqn
+      | .error _ => pure []
+    pure (.mk (← (← field j "name").getStr?) (← (← field j "kind").getStr?) alias exts classes comps eqs ieqs)
 
 def parseLib (j : Json) : E SLib := do (← arr j).mapM (parseClass 64)
 
@@ -87,9 +155,75 @@ def parseLib (j : Json) : E SLib := do (← arr j).mapM (parseClass 64)
 def jnat (n : Nat) : Json := Json.num (JsonNumber.fromNat n)
 def jnats (xs : List Nat) : Json := Json.arr (xs.map jnat).toArray
 def jstrs (xs : List String) : Json := Json.arr (xs.map Json.str).toArray
-def jparts (ps : List (Name × List Nat)) : Json :=
-  Json.arr (ps.map fun p => Json.arr #[Json.str p.1, jnats p.2]).toArray
 def dot (p : Path) : String := ".".intercalate p
+
+/-! source form of subscripts (as sent by the harness): numbers, or expressions in source syntax -/
+def srcNum (n : Nat) : Json := Json.arr #["num", jnat n]
+def encSub0In : Sub0 → Json
+  | .lit n => srcNum n
+  | .name x => Json.arr #["ref", Json.arr #[Json.arr #[Json.str x, Json.arr #[]]]]
+  | .add a b => Json.arr #["bin", "+", encSub0In a, encSub0In b]
+def encSub0 : Sub0 → Json
+  | .lit n => jnat n
+  | s => encSub0In s
+def jparts0 (ps : List (Name × List Sub0)) : Json :=
+  Json.arr (ps.map fun p => Json.arr #[Json.str p.1, Json.arr (p.2.map encSub0).toArray]).toArray
+def encSub1In : Sub1 → Json
+  | .lit n => srcNum n
+  | .name x => Json.arr #["ref", Json.arr #[Json.arr #[Json.str x, Json.arr #[]]]]
+  | .ref ps => Json.arr #["ref", jparts0 ps]
+  | .add a b => Json.arr #["bin", "+", encSub1In a, encSub1In b]
+def encSub1 : Sub1 → Json
+  | .lit n => jnat n
+  | s => encSub1In s
+def jparts (ps : List (Name × List Sub1)) : Json :=
+  Json.arr (ps.map fun p => Json.arr #[Json.str p.1, Json.arr (p.2.map encSub1).toArray]).toArray
+
+/-! canonical flat form of subscripts: numbers; ["ref", flat or plain name, subs]; ["uref", parts]; sums.
+    Subscripts inside a reference that was left alone are left alone too (canonical, unrenamed). -/
+def jnum (n : Nat) : Json := Json.arr #["num", jnat n]
+/-- inner positions (operands of a sum) print literals as expressions; the top of a subscript
+    prints a literal as a bare number -/
+def canSub0In : Sub0 → Json
+  | .lit n => jnum n
+  | .name x => Json.arr #["ref", Json.str x, Json.arr #[]]
+  | .add a b => Json.arr #["bin", "+", canSub0In a, canSub0In b]
+def canSub0 : Sub0 → Json
+  | .lit n => jnat n
+  | s => canSub0In s
+def canParts0 (ps : List (Name × List Sub0)) : Json :=
+  Json.arr (ps.map fun p => Json.arr #[Json.str p.1, Json.arr (p.2.map canSub0).toArray]).toArray
+def canRef0 (ps : List (Name × List Sub0)) : Json :=
+  match ps with
+  | [p] => Json.arr #["ref", Json.str p.1, Json.arr (p.2.map canSub0).toArray]
+  | _ => Json.arr #["uref", canParts0 ps]
+def canSub1In : Sub1 → Json
+  | .lit n => jnum n
+  | .name x => Json.arr #["ref", Json.str x, Json.arr #[]]
+  | .ref ps => canRef0 ps
+  | .add a b => Json.arr #["bin", "+", canSub1In a, canSub1In b]
+def canSub1 : Sub1 → Json
+  | .lit n => jnat n
+  | s => canSub1In s
+def encFSub0In : FSub0 → Json
+  | .lit n => jnum n
+  | .var p => Json.arr #["ref", Json.str (dot p), Json.arr #[]]
+  | .name x => Json.arr #["ref", Json.str x, Json.arr #[]]
+  | .add a b => Json.arr #["bin", "+", encFSub0In a, encFSub0In b]
+def encFSub0 : FSub0 → Json
+  | .lit n => jnat n
+  | s => encFSub0In s
+def encFSub1In : FSub1 → Json
+  | .lit n => jnum n
+  | .var p subs => Json.arr #["ref", Json.str (dot p), Json.arr (subs.map encFSub0).toArray]
+  | .name x => Json.arr #["ref", Json.str x, Json.arr #[]]
+  | .uref ps => canRef0 ps
+  | .add a b => Json.arr #["bin", "+", encFSub1In a, encFSub1In b]
+def encFSub1 : FSub1 → Json
+  | .lit n => jnat n
+  | s => encFSub1In s
+def canParts (ps : List (Name × List Sub1)) : Json :=
+  Json.arr (ps.map fun p => Json.arr #[Json.str p.1, Json.arr (p.2.map canSub1).toArray]).toArray
 
 def encExpr : Expr → Json
   | .num n => Json.arr #["num", jnat n]
@@ -107,9 +241,9 @@ def encFExpr : FExpr → Json
   | .num n => Json.arr #["num", jnat n]
   | .bool b => Json.arr #["bool", Json.bool b]
   | .str s => Json.arr #["str", Json.str s]
-  | .fref p subs => Json.arr #["ref", Json.str (dot p), jnats subs]
-  | .uref [p] => Json.arr #["ref", Json.str p.1, jnats p.2]
-  | .uref ps => Json.arr #["uref", jparts ps]
+  | .fref p subs => Json.arr #["ref", Json.str (dot p), Json.arr (subs.map encFSub1).toArray]
+  | .uref [p] => Json.arr #["ref", Json.str p.1, Json.arr (p.2.map canSub1).toArray]
+  | .uref ps => Json.arr #["uref", canParts ps]
   | .sym p => Json.arr #["sym", Json.str (dot p)]
   | .un op a => Json.arr #["un", Json.str op, encFExpr a]
   | .bin op a b => Json.arr #["bin", Json.str op, encFExpr a, encFExpr b]
@@ -123,13 +257,23 @@ mutual
     | m :: ms => encSMod m :: encSMods ms
 end
 
+def encEqn : Eqn → Json
+  | .eq l r => Json.arr #[encExpr l, encExpr r]
+  | .forEq i lo hi body =>
+    Json.arr #["for", Json.str i, jnat lo, jnat hi, Json.arr (body.map fun e => Json.arr #[encExpr e.1, encExpr e.2]).toArray]
+
+def encFEqn : FEqn → Json
+  | .eq l r => Json.arr #[encFExpr l, encFExpr r]
+  | .forEq i lo hi body =>
+    Json.arr #["for", Json.str i, jnat lo, jnat hi, Json.arr (body.map fun e => Json.arr #[encFExpr e.1, encFExpr e.2]).toArray]
+
 def encComp (k : SComp) : Json :=
   Json.mkObj [("name", Json.str k.name), ("type", Json.str (dot k.type)), ("prefixes", jstrs k.prefixes),
     ("dims", jnats k.dims), ("mods", Json.arr (encSMods k.mods).toArray), ("value", encOptExpr k.value)]
 
 mutual
   def encClass : SClass → Json
-    | .mk name kind alias exts classes comps eqs =>
+    | .mk name kind alias exts classes comps eqs ieqs =>
       Json.mkObj [("name", Json.str name), ("kind", Json.str kind),
         ("alias", match alias with
           | none => Json.null
@@ -138,7 +282,8 @@ mutual
           Json.mkObj [("ref", Json.str (dot e.ref)), ("mods", Json.arr (encSMods e.mods).toArray)]).toArray),
         ("classes", Json.arr (encClasses classes).toArray),
         ("comps", Json.arr (comps.map encComp).toArray),
-        ("eqs", Json.arr (eqs.map fun e => Json.arr #[encExpr e.1, encExpr e.2]).toArray)]
+        ("eqs", Json.arr (eqs.map encEqn).toArray),
+        ("ieqs", Json.arr (ieqs.map encEqn).toArray)]
   def encClasses : List SClass → List Json
     | [] => []
     | c :: cs => encClass c :: encClasses cs
@@ -163,7 +308,7 @@ def encErr : Err → String
 def encResult : Except Err FlatModel → List (String × Json)
   | .error e => [("ok", Json.bool false), ("err", Json.str (encErr e))]
   | .ok m => [("ok", Json.bool true), ("vars", Json.arr (m.vars.map encFVar).toArray),
-              ("eqs", Json.arr (m.eqs.map fun e => Json.arr #[encFExpr e.1, encFExpr e.2]).toArray)]
+              ("eqs", Json.arr (m.eqs.map encFEqn).toArray), ("ieqs", Json.arr (m.ieqs.map encFEqn).toArray)]
 
 def encMods (ms : List Mod) : Json :=
   Json.arr (ms.map fun m => Json.arr #[jstrs m.path, encExpr m.value]).toArray
